@@ -410,7 +410,7 @@ def run(chk):
                 "Ical/Index.lean (what check_from_indexes_eq_check is about) is compared with the real index_keys / "
                 "get_indexes / check_from_indexes on generated inputs, and the two real paths with each other on the "
                 "proved class. non-trivial = more queries than the threshold / an input of the proved class")
-    chk.lean_obligations(MODULE, AUDIT, regen=lambda c: transval.regen(c, ["Unescape"]))
+    chk.lean_obligations(MODULE, AUDIT, regen=lambda c: transval.regen(c, ["Unescape", "FindKeys"]))
     quick = chk.tier == "quick"
     probes(chk)
     index_model_tie(chk, 400 if quick else 6000)
